@@ -88,6 +88,13 @@ func (mk *mapKey) ArgType() reflect.Type {
 	return mk.mapType
 }
 
+// keyValue returns the key as a value of the key type of the map. The key type
+// has kind string but may be a named type, which a plain string value is not
+// assignable to.
+func (mk *mapKey) keyValue() reflect.Value {
+	return reflect.ValueOf(mk.name).Convert(mk.mapType.Key())
+}
+
 // LocateParams locates the map (or slice of maps for a bulk insert) in
 // typeToValue and then gets value associated with the key specified in mapKey.
 // An error is returned if any map does not contain this key.
@@ -95,7 +102,7 @@ func (mk *mapKey) LocateParams(typeToValue TypeToValue) (*Params, error) {
 	var argType reflect.Type
 	var vals []any
 	if m, ok := typeToValue[mk.mapType]; ok {
-		v := m.MapIndex(reflect.ValueOf(mk.name))
+		v := m.MapIndex(mk.keyValue())
 		if v.Kind() == reflect.Invalid {
 			return nil, fmt.Errorf("map %q does not contain key %q", mk.mapType.Name(), mk.name)
 		}
@@ -120,7 +127,7 @@ func (mk *mapKey) LocateParams(typeToValue TypeToValue) (*Params, error) {
 			if m.IsNil() {
 				return nil, fmt.Errorf("got nil map in slice of %q at index %d", m.Type().Name(), i)
 			}
-			v := m.MapIndex(reflect.ValueOf(mk.name))
+			v := m.MapIndex(mk.keyValue())
 			if v.Kind() == reflect.Invalid {
 				return nil, fmt.Errorf("map %q does not contain key %q", mk.mapType.Name(), mk.name)
 			}
@@ -154,7 +161,7 @@ func (mk *mapKey) LocateScanTarget(typeToValue TypeToValue) (any, *ScanProxy, er
 		return nil, nil, valueNotFoundError(typeToValue, mk.mapType)
 	}
 	scanVal := reflect.New(mk.mapType.Elem()).Elem()
-	return scanVal.Addr().Interface(), &ScanProxy{original: m, scan: scanVal, key: reflect.ValueOf(mk.name)}, nil
+	return scanVal.Addr().Interface(), &ScanProxy{original: m, scan: scanVal, key: mk.keyValue()}, nil
 }
 
 // structField represents reflection information about a field of a particular
